@@ -235,11 +235,12 @@ Proof.
   { intros i seg Hin nodes0 idx0 Hpre Hsz. destruct (Hus i seg Hin) as (Hi & -> & Hk).
     destruct (undecided_seg data Hwf Hsorted i Hi Hk) as [Hne Hlong].
     destruct (shifted_ok data Hwf Hsorted i Hlong) as (Swf & Ssorted & Slen).
-    apply Hchild; auto.
-    - split; auto. intros e He. split. apply Swf; exact He. destruct (Slen e He) as (e0 & He0 & ->).
+    apply Hchild.
+    - split; [| exact Ssorted]. intros e He. split. apply Swf; exact He. destruct (Slen e He) as (e0 & He0 & ->).
       apply in_seg_of in He0. destruct (Hok e0 (proj1 He0)). lia.
     - destruct (seg_of data i). congruence. discriminate.
     - intros e He. destruct (Slen e He) as (e0 & He0 & ->). specialize (Hlong e0 He0). lia.
+    - exact Hpre.
     - rewrite map_length. exact Hsz. }
   { fold us. lia. }
   { fold us. intros p Hp. unfold nodes2. rewrite nth_error_app2; rewrite set_nth_length by exact Hidx; [| lia].
@@ -267,7 +268,7 @@ Proof.
     fold (node_known data). fold known. rewrite rank_spec by exact Hn. rewrite bcount_filter.
     set (m := length (filter (fun k => negb (Z.testbit known k)) (zseq (Z.to_nat n)))).
     assert (Hm : nth_error us m = Some (n, seg_of data n)).
-    { unfold us. rewrite unknown_of_spec. apply map_nth_error. apply nth_filter_zseq. lia. rewrite Hk. reflexivity. }
+    { unfold us. rewrite unknown_of_spec. apply (map_nth_error (fun i => (i, seg_of data i))). apply nth_filter_zseq. lia. rewrite Hk. reflexivity. }
     assert (Hmlt : (m < U)%nat) by (rewrite <- HU; apply nth_error_Some; congruence).
     destruct (Sub m n (seg_of data n) Hm) as (lo & hi & Hlo & Hhi & Hs).
     assert (Enext : wrap 32 (wrap 32 (Z.of_nat (length nodes)) + Z.of_nat m) = Z.of_nat (length nodes + m)).
@@ -275,3 +276,203 @@ Proof.
     rewrite Enext. destruct Hs as [_ Hs]. apply Hs. 2: apply in128_shl4.
     intros p Hp. apply Hag. right. lia.
 Qed.
+
+Lemma fill_node_spec : forall f data nodes idx,
+  data_ok (S f) data -> fill_pre nodes idx ->
+  Z.of_nat (length nodes) + Z.of_nat (S f) * Z.of_nat (length data) < 2 ^ 32 ->
+  fill_ok (S f) (fill_node (S f)) nodes data idx.
+Proof.
+  induction f; intros data nodes idx Hd Hp Hs; apply fill_node_step; try assumption.
+  - intros d nodes0 idx0 [Hok _] Hne Hlen _ _. exfalso. destruct d as [| e d]. congruence.
+    destruct (Hok e (or_introl eq_refl)) as [_ H1]. specialize (Hlen e (or_introl eq_refl)). lia.
+  - intros d nodes0 idx0 Hd0 _ _ Hp0 Hs0. apply IHf; assumption.
+Qed.
+
+(* ---- BitTree::create followed by BitTree::lookup ---- *)
+Definition entry_in_range (e : entry) : Prop := in128 (fst e) /\ 0 <= snd e <= 128.
+
+(* the naive test: equal under the mask of the prefix length *)
+Definition naive (a : Z) (e : entry) : bool := fst e / psize (snd e) =? a / psize (snd e).
+
+Lemma create_spec : forall data, Forall entry_in_range data ->
+  1 + 33 * Z.of_nat (length data) < 2 ^ 32 ->
+  exists nodes, create data = Ok nodes /\
+    forall a, in128 a -> lookup nodes a = Ok (existsb (naive a) data).
+Proof.
+  intros data Hr Hsize. unfold create.
+  set (masked := map (fun e => (apply_mask (fst e) (snd e), snd e)) data).
+  set (sorted := sort_entries masked).
+  assert (Hperm : Permutation sorted masked) by apply sort_perm.
+  assert (Hmasked : forall e, In e masked -> wf_entry e /\ snd e <= 128).
+  { intros e He. unfold masked in He. apply in_map_iff in He. destruct He as (e0 & <- & He0).
+    rewrite Forall_forall in Hr. destruct (Hr e0 He0) as [H1 H2]. split. apply apply_mask_wf; assumption.
+    cbn [snd]. lia. }
+  assert (Hok : data_ok 33 sorted).
+  { split. intros e He. destruct (Hmasked e (Permutation_in _ Hperm He)). split. assumption. lia.
+    apply sort_ssorted. }
+  assert (Hlen : length sorted = length data).
+  { rewrite (Permutation_length Hperm). unfold masked. apply map_length. }
+  destruct (fill_node_spec 32 sorted [default_node] 0%nat Hok) as (nodes & E & _ & _ & _ & Hsub).
+  { split. cbn. lia. reflexivity. }
+  { rewrite Hlen. cbn [length]. lia. }
+  change CREATE_FUEL with 33%nat. rewrite E. exists nodes. split. reflexivity.
+  intros a Ha. unfold lookup. change LOOKUP_FUEL with 33%nat. destruct Hsub as [_ Hs].
+  change 0 with (Z.of_nat 0). rewrite Hs; auto. f_equal.
+  rewrite (existsb_perm _ _ _ _ Hperm). unfold masked. rewrite existsb_map.
+  apply existsb_ext_in. intros e He. rewrite Forall_forall in Hr. destruct (Hr e He).
+  unfold naive. symmetry. apply contains_interval; assumption.
+Qed.
+
+(* ---- IpFilter::new / is_in ---- *)
+Lemma existsb_flat_map : forall (A B : Type) (f : B -> bool) (g : A -> list B) l,
+  existsb f (flat_map g l) = existsb (fun x => existsb f (g x)) l.
+Proof. induction l; simpl. reflexivity. rewrite existsb_app, IHl. reflexivity. Qed.
+
+Lemma flat_map_length_le : forall (A B : Type) (g : A -> list B) l,
+  (forall x, length (g x) <= 1)%nat -> (length (flat_map g l) <= length l)%nat.
+Proof. induction l; simpl; intros. lia. rewrite app_length. specialize (IHl H). specialize (H a). lia. Qed.
+
+Lemma canonical_range : forall a, wf_addr a ->
+  match to_canonical a with V4 x => 0 <= x < 2 ^ 32 | V6 x => in128 x end.
+Proof.
+  intros [x | x] H; cbn [to_canonical wf_addr] in *. exact H.
+  destruct (x / 2 ^ 32 =? 65535). apply Z.mod_pos_bound. reflexivity. exact H.
+Qed.
+
+Lemma v4_embed : forall x, 0 <= x < 2 ^ 32 -> shl 128 x V4_SHIFT = x * 2 ^ 96 /\ in128 (x * 2 ^ 96).
+Proof.
+  intros x H. unfold shl, wrap, V4_SHIFT, in128. change (96 mod 128) with 96.
+  assert (0 <= x * 2 ^ 96 < 2 ^ 128) by (norm_pows; lia). rewrite Z.mod_small by assumption. auto.
+Qed.
+
+Lemma v4_naive : forall n x m, 0 <= m <= 32 ->
+  naive (x * 2 ^ 96) (n * 2 ^ 96, m) = (n / 2 ^ (32 - m) =? x / 2 ^ (32 - m)).
+Proof.
+  intros n x m Hm. unfold naive, psize. cbn [fst snd].
+  replace (128 - m) with ((32 - m) + 96) by lia. rewrite Z.pow_add_r by lia.
+  assert (0 < 2 ^ (32 - m)) by (apply Z.pow_pos_nonneg; lia).
+  rewrite !Z.div_mul_cancel_r by (norm_pows; lia). reflexivity.
+Qed.
+
+Theorem lookup_spec : forall subnets a,
+  Forall wf_subnet subnets -> wf_addr a ->
+  1 + 33 * Z.of_nat (length subnets) < 2 ^ 32 ->
+  (do f <- filter_new subnets; is_in f a) = Ok (existsb (fun s => contains s a) subnets).
+Proof.
+  intros subnets a Hs Ha Hsize. rewrite Forall_forall in Hs.
+  destruct (create_spec (v4_entries subnets)) as (t4 & E4 & L4).
+  { apply Forall_forall. intros e He. unfold v4_entries in He. apply in_flat_map in He. destruct He as (s & Hin & He).
+    destruct (Hs s Hin) as [Hw Hm]. destruct (s_addr s) as [n | n]; [| destruct He]. destruct He as [<- | []].
+    cbn [wf_addr] in Hw. change V4_SHIFT_NEW with V4_SHIFT. destruct (v4_embed n Hw) as [-> Hr].
+    split; cbn [fst snd]. exact Hr. lia. }
+  { assert (length (v4_entries subnets) <= length subnets)%nat.
+    { apply flat_map_length_le. intros s. destruct (s_addr s); cbn; lia. } lia. }
+  destruct (create_spec (v6_entries subnets)) as (t6 & E6 & L6).
+  { apply Forall_forall. intros e He. unfold v6_entries in He. apply in_flat_map in He. destruct He as (s & Hin & He).
+    destruct (Hs s Hin) as [Hw Hm]. destruct (s_addr s) as [n | n]; [destruct He |]. destruct He as [<- | []].
+    cbn [wf_addr] in Hw. split; cbn [fst snd]. exact Hw. lia. }
+  { assert (length (v6_entries subnets) <= length subnets)%nat.
+    { apply flat_map_length_le. intros s. destruct (s_addr s); cbn; lia. } lia. }
+  unfold filter_new. rewrite E4, E6. cbn [res_bind]. unfold is_in. cbn [f4 f6].
+  pose proof (canonical_range a Ha) as Hc. unfold contains.
+  destruct (to_canonical a) as [x | x].
+  - destruct (v4_embed x Hc) as [-> Hr]. rewrite L4 by exact Hr. f_equal.
+    unfold v4_entries. rewrite existsb_flat_map. apply existsb_ext_in. intros s Hin.
+    destruct (Hs s Hin) as [Hw Hm]. destruct (s_addr s) as [n | n]; [| reflexivity].
+    cbn [wf_addr] in Hw. change V4_SHIFT_NEW with V4_SHIFT. destruct (v4_embed n Hw) as [-> _].
+    cbn [existsb]. rewrite orb_false_r. apply v4_naive. exact Hm.
+  - rewrite L6 by exact Hc. f_equal.
+    unfold v6_entries. rewrite existsb_flat_map. apply existsb_ext_in. intros s Hin.
+    destruct (s_addr s) as [n | n]; [reflexivity |]. cbn [existsb]. rewrite orb_false_r. reflexivity.
+Qed.
+
+(* the census of panic sites of the modelled functions (see tools/consts/ipfilter.py) *)
+Lemma panic_site_census : IPFILTER_INDEX_SITES = 3 /\ IPFILTER_SPLIT_SITES = 1.
+Proof. split; reflexivity. Qed.
+
+(* ---- IpSubnet::from_str ---- *)
+Definition mask_fits (a : ipaddr) (m : Z) : Prop :=
+  match a, to_canonical a with
+  | V6 _, V4 _ => 96 <= m <= 128
+  | V4 _, _ => m <= 32
+  | V6 _, _ => m <= 128
+  end.
+
+Definition canonical_subnet (a : ipaddr) (m : Z) : subnet :=
+  match a, to_canonical a with
+  | V6 _, V4 c => mk_subnet (V4 c) (m - 96)
+  | _, _ => mk_subnet a m
+  end.
+
+Lemma from_str_spec : forall split addr mask s,
+  from_str split addr mask = Ok s <->
+  split = true /\ exists a m, addr = Some a /\ mask = Some m /\ mask_fits a m /\ s = canonical_subnet a m.
+Proof.
+  intros split addr mask s. unfold from_str, mask_fits, canonical_subnet, MAPPED_PREFIX, MAX_MASK_V4, MAX_MASK_V6.
+  destruct split; cbn [negb].
+  2: { split. discriminate. intros [H _]. discriminate. }
+  destruct addr as [a |].
+  2: { split. discriminate. intros (_ & a & m & H & _). discriminate. }
+  destruct mask as [m |].
+  2: { split. discriminate. intros (_ & a' & m & _ & H & _). discriminate. }
+  assert (R : forall P : ipaddr -> Z -> Prop,
+    (true = true /\ exists a' m', Some a = Some a' /\ Some m = Some m' /\ P a' m') <-> P a m).
+  { intros P. split. intros (_ & a' & m' & E1 & E2 & H). inversion E1; inversion E2; subst. exact H.
+    intros H. split. reflexivity. exists a, m. auto. }
+  rewrite (R (fun a m => _ /\ s = _)). clear R.
+  destruct a as [x | x]; cbn [to_canonical].
+  - cbn [res_bind fst snd]. destruct (Z.gtb_spec m 32); split; try discriminate.
+    + intros [H1 _]. lia.
+    + intros E. inversion E. split. lia. reflexivity.
+    + intros [_ ->]. reflexivity.
+  - destruct (x / 2 ^ 32 =? 65535).
+    + destruct (Z.ltb_spec m 96); cbn [res_bind fst snd].
+      * split. discriminate. intros [H1 _]. lia.
+      * destruct (Z.gtb_spec (m - 96) 32); split; try discriminate.
+        -- intros [H1 _]. lia.
+        -- intros E. inversion E. split. lia. reflexivity.
+        -- intros [_ ->]. reflexivity.
+    + cbn [res_bind fst snd]. destruct (Z.gtb_spec m 128); split; try discriminate.
+      * intros [H1 _]. lia.
+      * intros E. inversion E. split. lia. reflexivity.
+      * intros [_ ->]. reflexivity.
+Qed.
+
+(* which error is reported *)
+Lemma from_str_errors : forall split addr mask,
+  (split = false -> from_str split addr mask = Err E_SUBNET) /\
+  (split = true -> addr = None -> from_str split addr mask = Err E_IP) /\
+  (forall a, split = true -> addr = Some a -> mask = None -> from_str split addr mask = Err E_MASK) /\
+  (forall x m, split = true -> addr = Some (V6 x) -> mask = Some m -> x / 2 ^ 32 = 65535 -> m < 96 ->
+     from_str split addr mask = Err E_MASK_V4_RANGE).
+Proof.
+  intros. repeat split; intros; subst; try reflexivity.
+  unfold from_str, MAPPED_PREFIX. cbn [negb to_canonical]. rewrite H2. cbn. 
+  destruct (Z.ltb_spec m 96). reflexivity. lia.
+Qed.
+
+(* an accepted subnet satisfies the precondition of the lookup theorem and is canonical *)
+Lemma from_str_wf : forall split a m s, wf_addr a -> 0 <= m < 256 ->
+  from_str split (Some a) (Some m) = Ok s -> wf_subnet s /\ to_canonical (s_addr s) = s_addr s.
+Proof.
+  intros split a m s Ha Hm H. apply from_str_spec in H. destruct H as (_ & a' & m' & E1 & E2 & Hf & ->).
+  inversion E1; inversion E2; subst a' m'. unfold mask_fits in Hf. unfold canonical_subnet, wf_subnet.
+  pose proof (canonical_range a Ha) as Hc.
+  destruct a as [x | x]; cbn [to_canonical] in *.
+  - cbn [s_addr s_mask wf_addr to_canonical]. split. split. exact Ha. lia. reflexivity.
+  - destruct (x / 2 ^ 32 =? 65535) eqn:E.
+    + cbn [s_addr s_mask wf_addr to_canonical]. split. split. exact Hc. lia. reflexivity.
+    + cbn [s_addr s_mask wf_addr to_canonical]. rewrite E. split. split. exact Ha. lia. reflexivity.
+Qed.
+
+(* an IPv4-mapped IPv6 address is looked up as the IPv4 address it embeds *)
+Lemma mapped_canonical : forall x, 0 <= x < 2 ^ 32 -> to_canonical (V6 (65535 * 2 ^ 32 + x)) = V4 x.
+Proof.
+  intros x H. cbn [to_canonical].
+  assert (E1 : (65535 * 2 ^ 32 + x) / 2 ^ 32 = 65535) by (norm_pows; dm; lia).
+  assert (E2 : (65535 * 2 ^ 32 + x) mod 2 ^ 32 = x) by (norm_pows; dm; lia).
+  rewrite E1, E2. reflexivity.
+Qed.
+
+Lemma mapped_is_in : forall f x, 0 <= x < 2 ^ 32 -> is_in f (V6 (65535 * 2 ^ 32 + x)) = is_in f (V4 x).
+Proof. intros. unfold is_in. rewrite mapped_canonical by assumption. reflexivity. Qed.
